@@ -13,6 +13,7 @@ The ODE half of C14 is a pure function of its input and is not decided by this
 technique (see DESIGN.md).
 """
 import hashlib
+import inspect
 import random
 
 import eonsim
@@ -60,6 +61,28 @@ def run_ode_pair(case, rng):
     for G, L, c in ((G1, L1, case), (G2, L2, c2)):
         kw = c19.ode_graph_kwargs(nm, None, L, c)
         kw.pop("return_full_data", None)
+        ex = case.get("ode_explicit") or {}
+        params = inspect.signature(getattr(c19.AN, nm)).parameters
+        if ex.get("weights"):
+            # heterogeneous per-edge / per-node rates: they must travel with the nodes
+            if "transmission_weight" in params:
+                kw["transmission_weight"] = "w"
+            if "recovery_weight" in params:
+                kw["recovery_weight"] = "nw"
+        if ex.get("nodelist") and "nodelist" in params:
+            # an explicit nodelist in an order of its own (another one on each side), and, where the
+            # entry point takes per-node initial probabilities, Y0 / X0 arrays listed in that order
+            order = list(range(len(L)))
+            rng.shuffle(order)
+            kw["nodelist"] = [L[i] for i in order]
+            if ex.get("y0") and "Y0" in params:
+                kw.pop("rho", None)
+                I0s, R0s = set(c["I0"]), set(c["R0"])
+                y = np.array([0.9 if i in I0s else 0.05 for i in order])
+                kw["Y0"] = y
+                if "X0" in params:
+                    kw["X0"] = np.array([1.0 - y[k] - (0.6 if i in R0s else 0.0) if i not in I0s else 0.1
+                                         for k, i in enumerate(order)])
         try:
             with np.errstate(all="ignore"), warnings.catch_warnings(record=True) as wl:
                 warnings.simplefilter("always")
@@ -162,7 +185,7 @@ def run_pair(case, rng):
     # only where simultaneous attempts cannot occur: the SIS tables give distinct
     # event times; with dyadic SIR tables two sources may reach a node at the
     # same instant and either is an admissible infector (C11 checks membership)
-    if len(set(times)) == len(times) and name == "fast_nonMarkov_SIS":
+    if len(set(times)) == len(times) and name == "fast_nonMarkov_SIS" and not case.get("sis_ties"):
         i1 = {lab: i for i, lab in enumerate(L1)}
         a = sorted((t, None if u is None else i1[u], i1[v]) for (t, u, v) in t1 if u is not None)
         b = sorted((t, None if u is None else idx2[u], idx2[v]) for (t, u, v) in t2 if u is not None)
@@ -213,6 +236,7 @@ def run_one(family, rng, idx, tier):
         case["rl_seed"] = rng.getrandbits(32)
         case["sim"] = "ode"
         case["use_sets"] = rng.random() < 0.75
+        case["ode_explicit"] = {"weights": rng.random() < 0.6, "nodelist": rng.random() < 0.6, "y0": rng.random() < 0.5}
         v, note = run_ode_pair(case, random.Random(case["rl_seed"]))
         stats = {"evaluations": 2, "fault_F6_relabel_and_reorder": 1}
         if note:
@@ -230,6 +254,7 @@ def run_one(family, rng, idx, tier):
             case["det_rule"] = True
         if family == "fast_nonMarkov_SIS":
             case["tmax"] = case["tmin"] + rng.choice([2.0, 4.0, 8.0])
+            case["sis_ties"] = rng.random() < 0.3
         case["rl_seed"] = rng.getrandbits(32)
         v, ch = run_pair(case, random.Random(case["rl_seed"]))
     out = {"viol": v, "stats": {"evaluations": 1, "fault_F6_relabel_and_reorder": 1}}
